@@ -185,6 +185,76 @@ def tryUpdate (t : Node) (key value : Bytes) : Option Node :=
 /-- `TryDelete`. -/
 def tryDelete (t : Node) (key : Bytes) : Option Node := (delete t (keybytesToHex key)).map (·.2)
 
+/-! ## Spec: canonical-shape invariant (DESIGN Appendix A.1) -/
+
+/-- no terminator inside. -/
+def Hex (k : List Nib) : Prop := ∀ x ∈ k, x ≠ T
+
+/-- a terminated hex key: nibbles below 16 followed by exactly one terminator (what `keybytesToHex` produces). -/
+def Term : List Nib → Prop
+  | [] => False
+  | [x] => x = T
+  | x :: y :: r => x ≠ T ∧ Term (y :: r)
+
+/-- canonical shape of a non-empty (sub)trie: leaves carry terminated keys and non-empty values, extensions carry
+    non-empty unterminated keys and point to a branch (never short→short), a branch has at least two non-nil
+    children, children 0..15 are nil/short/full, child 16 is nil or a non-empty value. -/
+inductive WF : Node → Prop
+  | leaf (k : List Nib) (v : Bytes) : Term k → v ≠ [] → WF (.short k (.value v))
+  | ext (k : List Nib) (cs : Nib → Node) : k ≠ [] → Hex k → WF (.full cs) → WF (.short k (.full cs))
+  | full (cs : Nib → Node) : (∀ i, i ≠ T → cs i ≠ .nil → WF (cs i)) →
+      (cs T = .nil ∨ ∃ v, v ≠ [] ∧ cs T = .value v) →
+      (∃ i j, i ≠ j ∧ cs i ≠ .nil ∧ cs j ≠ .nil) → WF (.full cs)
+
+def WFRoot (t : Node) : Prop := t = .nil ∨ WF t
+
+/-! ## Functional reading of insert/delete (no dirty flag, no panic outcome) — a proof device: `insert`/`delete`
+    are shown to return exactly these whenever they return at all (Lemmas.Trie `insert_eq_ins`, `delete_eq_del`). -/
+
+def ins : Node → List Nib → Bytes → Node
+  | _, [], v => .value v
+  | .short nk c, key@(_ :: _), v =>
+    let m := prefixLen key nk
+    if m = nk.length then .short nk (ins c (key.drop m) v)
+    else
+      match nk[m]?, key[m]? with
+      | some b, some a =>
+        let branch : Node := .full (setChild (setChild emptyCs b (insertNil (nk.drop (m + 1)) c)) a
+                                      (insertNil (key.drop (m + 1)) (.value v)))
+        if m = 0 then branch else .short (key.take m) branch
+      | _, _ => .nil
+  | .full cs, x :: rest, v => .full (setChild cs x (ins (cs x) rest v))
+  | .nil, key@(_ :: _), v => .short key (.value v)
+  | .value _, _ :: _, _ => .nil
+
+/-- the collapse step of `delete` on a branch whose child has just been replaced. -/
+def collapse (cs' : Nib → Node) : Node :=
+  match onlyChild cs' with
+  | some pos =>
+    if pos ≠ T then
+      match cs' pos with
+      | .short ck cv => .short (pos :: ck) cv
+      | _ => .short [pos] (cs' pos)
+    else .short [pos] (cs' pos)
+  | none => .full cs'
+
+/-- the merge step of `delete` on a short node whose child has just been replaced. -/
+def mergeShort (nk : List Nib) (child : Node) : Node :=
+  match child with
+  | .short ck cv => .short (nk ++ ck) cv
+  | _ => .short nk child
+
+def del : Node → List Nib → Node
+  | .short nk c, key =>
+    let m := prefixLen key nk
+    if m < nk.length then .short nk c
+    else if m = key.length then .nil
+    else mergeShort nk (del c (key.drop nk.length))
+  | .full cs, [] => .full cs
+  | .full cs, x :: rest => collapse (setChild cs x (del (cs x) rest))
+  | .value _, _ => .nil
+  | .nil, _ => .nil
+
 /-! ## trie/hasher.go — collapsed node as an RLP item, embedding rule, root hash (for an arbitrary hash function `H`) -/
 
 /-- `store`: a collapsed node whose RLP is shorter than 32 bytes stays embedded in its parent, else it is replaced
